@@ -79,7 +79,7 @@ sub fn_i(INTEGER var.n) INTEGER {
 
 func init() {
 	register("C13",
-		"straight-line and branching core-language programs over a pool of locals of every type and req headers, plus calls of user subroutines with typed parameters (procedural and functional) that assign to their parameters and own locals and run regex matches, and side-effect-free built-ins; the interpreter is driven statement by statement and the rendering/type/set-ness of every pooled name and re.group.0-3 is snapshotted before and after each statement; oracle (frame conditions): a statement changes only the names it assigns (re.group.* only if it contains a regex match), a call leaves caller locals, capture groups and argument variables unchanged; TIME, BACKEND and REGEX locals, req.backend and the declared backend identifiers are part of the snapshot and are exercised by time arithmetic inside concatenations, backend assignments and REGEX assignments/parameters; kind objects: during a real request (miss, pass and error paths) set/add/unset of header A or B on one of req/bereq/beresp/obj/resp leaves the same-named headers of the other objects unchanged. non-trivial: the statement reads >=1 pooled variable other than its target through an operator or call; distinct by program",
+		"straight-line and branching core-language programs over a pool of locals of every type and req headers, plus calls of user subroutines with typed parameters (procedural and functional) that assign to their parameters and own locals and run regex matches, and side-effect-free built-ins; the interpreter is driven statement by statement and the rendering/type/set-ness of every pooled name and re.group.0-3 is snapshotted before and after each statement; oracle (frame conditions): a statement changes only the names it assigns (re.group.* only if it contains a regex match), a call leaves caller locals, capture groups and argument variables unchanged; TIME, BACKEND and REGEX locals, req.backend and the declared backend identifiers are part of the snapshot and are exercised by time arithmetic inside concatenations, backend assignments and REGEX assignments/parameters; every built-in of builtin.yml whose argument and return types are scalar (STRING INTEGER FLOAT BOOL RTIME TIME IP; not strpad/randomstr, whose result size is an argument) is called with pooled variables as its arguments; two variables of a numeric type are seeded with extreme values (1e200, 1e308, 2^63-1, ...) and combined by every compound operator; unary minus/plus is applied to if(), grouped and already signed operands. kind objects: during a real request (miss, pass and error paths) set/add/unset of header A or B on one of req/bereq/beresp/obj/resp leaves the same-named headers of the other objects unchanged. non-trivial: the statement reads >=1 pooled variable other than its target through an operator or call; distinct by program",
 		genC13, checkC13, 10*time.Second)
 }
 
@@ -214,7 +214,15 @@ func genC13(t *rapid.T) any {
 			c.Steps = append(c.Steps, C13Step{Src: x.src, Kind: "extra-types", MayWrite: x.w, Reads: true, Match: strings.Contains(x.src, "helper_re")})
 			continue
 		}
-		switch rapid.IntRange(0, 9).Draw(t, "special") {
+		switch rapid.IntRange(0, 15).Draw(t, "special") {
+		case 10, 13, 14, 15: // any built-in of builtin.yml over scalar types, every argument a pooled variable
+			if st, ok := genC13Builtin(t, g); ok {
+				c.Steps = append(c.Steps, st)
+			}
+		case 11: // extreme operands reaching an operator through variables: seed, seed, operate
+			c.Steps = append(c.Steps, genC13Extreme(t, g)...)
+		case 12: // sign operators over operands that are not bare identifiers
+			c.Steps = append(c.Steps, genC13Sign(t, g))
 		case 0: // procedural call with arguments
 			sa := pickS(g, pool.Strs[:2], "argS")
 			ia := pickS(g, pool.Ints, "argI")
@@ -249,6 +257,102 @@ func genC13(t *rapid.T) any {
 		}
 	}
 	return c
+}
+
+// c13VarsOf: pooled variables by VCL type (TIME: the extra locals).
+func c13VarsOf(typ string) []string {
+	switch typ {
+	case "STRING":
+		return append(append([]string{}, pool.Strs...), pool.Hdrs...)
+	case "INTEGER":
+		return pool.Ints
+	case "FLOAT":
+		return pool.Floats
+	case "BOOL":
+		return pool.Bools
+	case "RTIME":
+		return pool.RTimes
+	case "IP":
+		return pool.IPs
+	case "TIME":
+		return []string{"var.t1", "var.t2"}
+	}
+	return nil
+}
+
+// genC13Builtin: `set <pooled variable of the return type> = fn(<pooled variables>);` for a built-in whose
+// declared argument and return types are all scalar (no ID / TABLE / ACL / BACKEND argument: those name
+// objects the function is meant to change). Only the target may change.
+func genC13Builtin(t *rapid.T, g *coreGen) (C13Step, bool) {
+	loadBuiltins()
+	name := rapid.SampledFrom(builtinNames).Draw(t, "fn")
+	spec := builtinTable[name]
+	// built-ins whose result size is an INTEGER argument are left to C08 (a pooled 2^31-1 asks for gigabytes)
+	if strings.Contains(name, "strpad") || strings.Contains(name, "randomstr") || len(spec.Arguments) == 0 {
+		return C13Step{}, false
+	}
+	sig := spec.Arguments[rapid.IntRange(0, len(spec.Arguments)-1).Draw(t, "sig")]
+	var args []string
+	for _, a := range sig {
+		vs := c13VarsOf(a)
+		if len(vs) == 0 {
+			return C13Step{}, false
+		}
+		args = append(args, pickS(g, vs, "arg"))
+	}
+	call := name + "(" + strings.Join(args, ", ") + ")"
+	tgts := c13VarsOf(spec.Return)
+	var st C13Step
+	if len(tgts) == 0 {
+		if spec.Return != "" && spec.Return != "VOID" {
+			return C13Step{}, false
+		}
+		st = C13Step{Src: call + ";\n", Kind: "builtin-any", Reads: true}
+	} else {
+		tgt := pickS(g, tgts, "btarget")
+		st = C13Step{Src: fmt.Sprintf("set %s = %s;\n", tgt, call), Kind: "builtin-any", MayWrite: []string{tgt}, Reads: true}
+	}
+	st.Match = strings.Contains(name, "regsub") || strings.Contains(name, "regex")
+	return st, true
+}
+
+// genC13Extreme: two variables of one numeric type are given extreme values, then one is combined with the
+// other by a compound operator; each of the three statements is a step of its own.
+func genC13Extreme(t *rapid.T, g *coreGen) []C13Step {
+	type fam struct {
+		vars, seeds, ops []string
+	}
+	f := rapid.SampledFrom([]fam{
+		{pool.Floats, []string{"1e200", "-1e200", "1e308", "-1e308", "1e-300", "0.0", "-0.0", "1.5"}, []string{"*=", "/=", "+=", "-=", "="}},
+		{pool.Ints, []string{"9223372036854775807", "-9223372036854775807", "-1", "0", "-3", "64", "4611686018427387904"}, []string{"*=", "/=", "+=", "-=", "%=", "<<=", ">>=", "rol=", "ror=", "|=", "&=", "^=", "="}},
+		{pool.RTimes, []string{"9999999999s", "-9999999999s", "0s", "1ms", "100000000h"}, []string{"+=", "-=", "="}},
+	}).Draw(t, "xfam")
+	a := pickS(g, f.vars, "xa")
+	b := pickS(g, f.vars, "xb")
+	op := pickS(g, f.ops, "xop")
+	steps := []C13Step{
+		{Src: fmt.Sprintf("set %s = %s;\n", a, pickS(g, f.seeds, "seedA")), Kind: "extreme-seed", MayWrite: []string{a}},
+		{Src: fmt.Sprintf("set %s = %s;\n", b, pickS(g, f.seeds, "seedB")), Kind: "extreme-seed", MayWrite: []string{b}},
+		{Src: fmt.Sprintf("set %s %s %s;\n", a, op, b), Kind: "extreme-op", MayWrite: []string{a}, Reads: a != b},
+	}
+	return steps
+}
+
+// genC13Sign: unary minus / plus in front of an operand that is not a bare identifier.
+func genC13Sign(t *rapid.T, g *coreGen) C13Step {
+	vars := rapid.SampledFrom([][]string{pool.Ints, pool.Floats, pool.RTimes}).Draw(t, "signtype")
+	tgt, a, b := pickS(g, vars, "sT"), pickS(g, vars, "sA"), pickS(g, vars, "sB")
+	cond := pickS(g, pool.Bools, "sC")
+	form := rapid.SampledFrom([]string{
+		"set %[1]s = -if(%[4]s, %[2]s, %[3]s);\n", "set %[1]s = -(%[2]s);\n", "set %[1]s = -+%[2]s;\n", "set %[1]s = --%[2]s;\n",
+		"set %[1]s = +-%[2]s;\n", "set %[1]s += -if(%[4]s, %[2]s, %[3]s);\n", "set %[1]s -= -(%[2]s);\n",
+		"set req.http.H1 = \"v\" + -%[2]s;\n", "set req.http.H1 = \"v\" + -%[2]s + \"|\" + -%[3]s;\n",
+	}).Draw(t, "signform")
+	st := C13Step{Src: fmt.Sprintf(form, tgt, a, b, cond), Kind: "sign", MayWrite: []string{tgt}, Reads: true}
+	if strings.Contains(form, "req.http.H1") {
+		st.MayWrite = []string{"req.http.H1"}
+	}
+	return st
 }
 
 type snap map[string]string
